@@ -57,6 +57,7 @@ type interpreter struct {
 	cur       *thread
 	killed    chan struct{}
 	switches  int // preemptive switches used
+	sleeps    int
 	pendPanic interface{}
 
 	// side tables of engine-modelled objects
